@@ -151,6 +151,10 @@ func init() {
 	// the multisig branch has its own nonce gate and replay behaviour
 	add("C04", txAssumptions, tier("quick", msig)...)
 	add("C26", txAssumptions, tier("quick", msig)...)
+	msigEdit := HSpec{Pkg: txPkg, Func: "VerifHarness_Multisig_EditThenSend", Tier: "quick", Configs: []map[string]int64{cfg("concretePrices", 1, "extra", 0), cfg("concretePrices", 1, "extra", 1), cfg("concretePrices", 1, "extra", 2)},
+		Bounds: "EditMultisig of a 3-owner wallet to 2 weights and 2..4 addresses (weights, threshold symbolic), then a Send signed by the last listed owner"}
+	add("C05", txAssumptions, msigEdit)
+	add("C07", txAssumptions, msigEdit)
 	add("C05", txAssumptions, tier("thorough", msig3)...)
 	add("C07", txAssumptions, tier("thorough", msig)...)
 	mint := HSpec{Pkg: txPkg, Func: "VerifHarness_MintToken_Deliver", Configs: []map[string]int64{
@@ -368,7 +372,7 @@ func init() {
 			"custom-coin stakes (bip value through the bancor formula), punishments and status switches between updates are outside these harnesses",
 		}, commonAssumptions...)
 		add("C17", c17a,
-			HSpec{Pkg: "coreV2/state", Func: "VerifHarness_C17_Ranking", Tier: "quick", Configs: cfgs("n", 99, 100, 101, 102), Bounds: "n concrete candidates + 1 symbolic; one RecalculateStakesV2 and GetNewCandidates(4)"},
+			HSpec{Pkg: "coreV2/state", Func: "VerifHarness_C17_Ranking", Tier: "quick", Configs: append(cfgs("n", 99, 100, 101, 102), cfg("n", 100, "dust", 1), cfg("n", 101, "dust", 1)), Bounds: "n concrete candidates + 1 symbolic (optionally holding a custom-coin stake whose base-coin value may be zero); one RecalculateStakesV2 and GetNewCandidates(4)"},
 			HSpec{Pkg: "coreV2/state", Func: "VerifHarness_C17_FullSlots", Tier: "quick", Bounds: "1000 concrete stakes + 1 symbolic delegation; one RecalculateStakesV2"},
 			HSpec{Pkg: minterPkg, Func: "VerifHarness_C17_Powers", Tier: "quick", Bounds: "3 candidates, stakes unbounded positive (two of them >= 1000 BIP); one updateValidators"})
 		add("C07", c17a,
@@ -446,6 +450,12 @@ func init() {
 		for _, id := range []string{"C27", "C03", "C06", "C22"} {
 			add(id, txAssumptions, regSym)
 		}
+		// price table denominated in the token: the ticker fee and the type fee are
+		// converted through the (token, base) pool, gas price symbolic
+		add("C27", txAssumptions, HSpec{Pkg: txPkg, Func: "VerifHarness_CoinRegistry_Deliver", Tier: "quick", Configs: []map[string]int64{
+			cfg("kind", 1, "ticker", 0, "priceCoin", 2, "pool20", 1, "concretePool", 1, "concretePrices", 1, "symGasPrice", 1),
+			cfg("kind", 0, "ticker", 0, "priceCoin", 2, "pool20", 1, "concretePool", 1, "concretePrices", 1, "symGasPrice", 1)},
+			Bounds: "CreateToken / CreateCoin with the price table in a custom coin; concrete table and pool, symbolic gas price"})
 		add("C27", txAssumptions, reg)
 		for _, id := range []string{"C22", "C01", "C02", "C03", "C05", "C06", "C07"} {
 			add(id, txAssumptions, reg)
@@ -478,13 +488,15 @@ func init() {
 		sellT := HSpec{Pkg: txPkg, Func: "VerifHarness_SellPool_Deliver", Tier: "thorough", Configs: []map[string]int64{pp("gasCoin", 0, "reverse", 1), pp("gasCoin", 2, "reverse", 1)},
 			Bounds: "base->token"}
 		route5 := HSpec{Pkg: txPkg, Func: "VerifHarness_SellAllPool_Deliver", Tier: "quick", Configs: []map[string]int64{
-			pp("route5", 1, "concreteBalA", 1, "gasCoinField", 0)},
+			pp("route5", 1, "concreteBalA", 1, "gasCoinField", 0), pp("route5", 2, "concreteBalA", 1, "gasCoinField", 0)},
 			Bounds: "SellAllSwapPool over the cyclic 5-coin route token->X->Y->token->base (4 concrete pools, the commission pool is the last hop); sender balances concrete, minimum to buy and the other accounts symbolic"}
 		add("C15", c15a, bancorQ, bancorT, buyQ, sellQ, sellT, route5)
 		// the bancor coin also has a pool with the base coin: the commission is paid
 		// through whichever of reserve and pool is cheaper
 		bancorPool := HSpec{Pkg: txPkg, Func: "VerifHarness_Bancor_Deliver", Tier: "quick", Configs: []map[string]int64{
-			cp("kind", 1, "gasCoin", 1, "reverse", 1, "pool10", 1, "concretePool", 1), cp("kind", 0, "gasCoin", 1, "pool10", 1, "concretePool", 1)},
+			cp("kind", 1, "gasCoin", 1, "reverse", 1, "pool10", 1, "concretePool", 1), cp("kind", 0, "gasCoin", 1, "pool10", 1, "concretePool", 1),
+			// selling the base coin for the bancor coin with the fee paid in the coin being bought
+			cp("kind", 0, "gasCoin", 1, "reverse", 1)},
 			Bounds: "BuyCoin / SellCoin of the bancor coin paid in that coin while it also has a (concrete) pool with the base coin"}
 		for _, id := range []string{"C01", "C02", "C03", "C15", "C27"} {
 			add(id, c15a, bancorPool)
@@ -561,6 +573,7 @@ func init() {
 		}, commonAssumptions...), c11)
 		add("C21", commonAssumptions, c11)
 		add("C07", commonAssumptions, c11)
+		add("C04", commonAssumptions, c11) // the nonce of an emptied account survives export/import
 		redeem := func(kv ...interface{}) map[string]int64 {
 			return cfg(append([]interface{}{"concretePrices", 1}, kv...)...)
 		}
